@@ -54,6 +54,9 @@ type Gen struct {
 	// forceReplace: multiOutCase produces a singleton multi-output registration with one plain output removed and
 	// replaced by a singleton constructor without dependencies (the C06 variant of that family)
 	forceReplace bool
+	// forceBlock: multiOutCase produces a result object with two members of one group whose registration is refused
+	// because a later field's identity is taken (the C06 variant: the same successful registrations build the same way)
+	forceBlock bool
 }
 
 func newGen(seed int64) *Gen { return &Gen{rnd: rand.New(rand.NewSource(seed)), nextRid: 1} }
@@ -270,7 +273,12 @@ func (g *Gen) RegSet(cfg GenCfg) []*Reg {
 		for d := 0; d < nd; d++ {
 			switch {
 			case g.p(cfg.PBuiltin):
-				params = append(params, Param{Dep: Dep{Ty: []int{tCtx, tScope, tProv}[g.n(3)]}})
+				bd := Dep{Ty: []int{tCtx, tScope, tProv}[g.n(3)]}
+				if g.p(0.25) {
+					bd.Opt = true // declared optional, injected all the same
+					needIn = true
+				}
+				params = append(params, Param{Dep: bd})
 			case g.p(cfg.PSkip):
 				params = append(params, Param{Skip: true, Dep: Dep{Ty: g.n(8)}})
 				needIn = true
@@ -353,7 +361,7 @@ func (g *Gen) RegSet(cfg GenCfg) []*Reg {
 				continue
 			}
 			for _, other := range plans {
-				if other == pl || other.reg.Life != Singleton {
+				if other == pl || other.reg.Life != Singleton || refused(other.reg) {
 					continue
 				}
 				for _, prm := range other.reg.Form.Params {
@@ -457,6 +465,16 @@ func effectiveAllOk(reg *Reg) bool {
 		}
 	}
 	return true
+}
+
+// refused: the registration is rejected as a whole (a result field with both tags, F33)
+func refused(reg *Reg) bool {
+	for _, f := range reg.Form.Fields {
+		if f.Name != 0 && f.Group != 0 {
+			return true
+		}
+	}
+	return false
 }
 
 // regOutputs mirrors Model.add_steps: the identities a valid registration provides.
